@@ -49,6 +49,18 @@ CHECKS = {
             "Grid + adversarial values for the continuous functions, exhaustive strings up to length 7/8 over two "
             "9-letter alphabets for the recognisers; exploration (exhaustive on the finite sub-space).",
             "DESIGN.md §2 C18", TRUST),
+    "C07": ("relational monitor with a physical oracle: one noisy survey expressed in equivalent ways (translation, "
+            "circle zero, order, names, degrees, swapped ends, 8 axes x 2 handedness), every result mapped back to the "
+            "physical frame and compared field by field",
+            "Each re-expression of each generated survey must give the same physical result (1e-7 m, 1e-6 relative); "
+            "sampled surveys x enumerated transformations: exploration.",
+            "DESIGN.md §2 C07", TRUST),
+    "C16": ("reference-model monitor inside a sanitized driver: sparse kernels vs naive dense long-double algebra on "
+            "generated patterns with exactly proven rank",
+            "Generated sparsity patterns (corner shapes + random) through SparseMatrix, graph, ordering, envelope "
+            "LDL', solves, sparse inverse, block-diagonal Cholesky and homogenisation, compared entrywise with dense "
+            "references; exploration.",
+            "DESIGN.md §2 C16", TRUST),
 }
 
 NOT_APPLICABLE = {}
